@@ -2314,3 +2314,40 @@ Proof.
     repeat (match goal with |- context [if ?b then _ else _] => destruct b end; try discriminate).
     match goal with |- context [drop_versions ?a ?b] => destruct (drop_versions a b) end; discriminate.
 Qed.
+
+(* ------------------------------------------------------------------ one child per branch *)
+
+(* newversion on a node that already has a child on its branch (whatever created that child:
+   newversion, a branch request with the parent's own branch name, or -- on master -- a merge, whose
+   node carries the empty branch name) is refused: branches never fork through newversion *)
+Lemma newversion_sister_refused fx s p a f i r v n c cn :
+  find_node s p = Some (i, r, v, n) -> c ∈ n_children n -> r_nodes r !! c = Some cn ->
+  n_branch cn = n_branch n -> snd (do_new_version fx s p "" a f) = Fail.
+Proof.
+  intros F Hc Hcn Eb. unfold do_new_version. rewrite F.
+  destruct (negb (n_locked n)); [reflexivity|]. simpl.
+  destruct (lookup_all (r_nodes r) (n_children n)) as [sis|] eqn:Es; [|reflexivity].
+  pose proof (lookup_all_elem _ _ _ _ _ Es Hc Hcn) as Hin.
+  assert (Hex : existsb (fun sn => String.eqb (n_branch sn) (n_branch n)) sis = true).
+  { apply existsb_exists. exists cn. split; [now apply elem_of_list_In|]. rewrite Eb. apply String.eqb_refl. }
+  rewrite Hex. reflexivity.
+Qed.
+
+(* the DAG of the C02 driver: V = u2 on master with master child U = u4, W = u3 on branch "side" *)
+Definition c02dag : list req :=
+  [RNewRepo None "" u1; RCommit (U u1); RNewVersion (U u1) "" u2; RCommit (U u2);
+   RBranch (U u1) "side" "" u3; RCommit (U u3); RNewVersion (U u2) "" u4].
+
+(* a second newversion on V is refused; the merge [V, W] is accepted and its node (branch "") is a
+   second child of V on branch ""; newversion on V stays refused; root:master still names U, but
+   root:master~0 -- resolved through a loop over a Go map -- is U, the merge node, or an error,
+   depending on the iteration order *)
+Lemma master_after_merge_example :
+  let s0 := run repaired init c02dag in
+  let s1 := fst (step repaired s0 (RMerge (U u2) true [U u2; U u3] u5)) in
+  snd (step repaired s0 (RNewVersion (U u2) "" u5)) = Fail /\
+  snd (step repaired s0 (RMerge (U u2) true [U u2; U u3] u5)) = Done u5 /\
+  snd (step repaired s1 (RNewVersion (U u2) "" u6)) = Fail /\
+  matching s1 (U (u1 ++ ":master")) = Done u4 /\
+  List.map (fun p => matching s1 (mkUref (u1 ++ ":master~0") p)) [0; 1; 3]%nat = [Fail; Done u5; Done u4].
+Proof. vm_compute. auto. Qed.
